@@ -394,6 +394,8 @@ pub fn run_worker<P: Property>(a: &WorkerArgs) -> WorkerReport {
                     mix(a.seed, P::ID, a.worker)[..8].try_into().unwrap(),
                 )),
                 max_shrink_iters: P::max_shrink_iters(),
+                // bounds only how small the reported counterexample gets, never the verdict
+                max_shrink_time: 20_000,
                 max_global_rejects: 1_000_000,
                 ..Config::default()
             };
